@@ -17,6 +17,8 @@ pub enum Op {
     /// `peek_n(k + 1)`, then `advance_to(end of the k-th peeked match)` if there is one
     AdvPeek(usize),
     SetOffset(usize),
+    /// `it = it.with_offset(o)` on the live iterator (bare iterator only)
+    WithOffset(usize),
     SetMode(usize),
 }
 
@@ -27,11 +29,12 @@ impl Op {
             Op::Peek(n) => format!("peek_n({n})"),
             Op::AdvPeek(k) => format!("advance_to(end of match #{k} of peek_n({}))", k + 1),
             Op::SetOffset(o) => format!("set_offset({o})"),
+            Op::WithOffset(o) => format!("with_offset({o})"),
             Op::SetMode(m) => format!("set_mode({m})"),
         }
     }
     pub fn is_reset(&self) -> bool {
-        matches!(self, Op::SetOffset(_) | Op::AdvPeek(_))
+        matches!(self, Op::SetOffset(_) | Op::WithOffset(_) | Op::AdvPeek(_))
     }
 }
 
@@ -56,6 +59,8 @@ pub struct OpSet {
     pub with_positions: bool,
     /// compare `position(o)` for every boundary `o <= cov` in every state
     pub positions: bool,
+    /// also drive `it = it.with_offset(o)` on the live iterator for every boundary
+    pub with_offset_ops: bool,
 }
 
 #[derive(Clone, Debug, PartialEq, Eq, Hash, PartialOrd, Ord)]
@@ -100,7 +105,7 @@ impl Disagreement {
 }
 
 enum It<'h> {
-    Bare(FindMatches<'h>),
+    Bare(Option<FindMatches<'h>>),
     Pos(WithPositions<FindMatches<'h>>),
 }
 
@@ -112,18 +117,18 @@ impl<'h> It<'h> {
         if with_positions {
             It::Pos(sc.find_iter(input).with_positions())
         } else {
-            It::Bare(sc.find_iter(input))
+            It::Bare(Some(sc.find_iter(input)))
         }
     }
     fn state(&self) -> IterState {
         match self {
-            It::Bare(i) => i.verif_state(),
+            It::Bare(i) => i.as_ref().unwrap().verif_state(),
             It::Pos(i) => i.verif_inner().verif_state(),
         }
     }
     fn next(&mut self) -> Option<TokPos> {
         match self {
-            It::Bare(i) => i.next().map(|m| ((m.token_type(), m.start(), m.end()), None)),
+            It::Bare(i) => i.as_mut().unwrap().next().map(|m| ((m.token_type(), m.start(), m.end()), None)),
             It::Pos(i) => i.next().map(|m| {
                 ((m.token_type(), m.start(), m.end()), Some(((m.start_position().line, m.start_position().column), (m.end_position().line, m.end_position().column))))
             }),
@@ -131,32 +136,41 @@ impl<'h> It<'h> {
     }
     fn set_offset(&mut self, o: usize) {
         match self {
-            It::Bare(i) => i.set_offset(o),
+            It::Bare(i) => i.as_mut().unwrap().set_offset(o),
+            It::Pos(i) => i.set_offset(o),
+        }
+    }
+    fn with_offset(&mut self, o: usize) {
+        match self {
+            It::Bare(i) => {
+                let it = i.take().unwrap();
+                *i = Some(it.with_offset(o));
+            }
             It::Pos(i) => i.set_offset(o),
         }
     }
     fn set_mode(&mut self, m: usize) {
         match self {
-            It::Bare(i) => i.set_mode(m),
+            It::Bare(i) => i.as_mut().unwrap().set_mode(m),
             It::Pos(i) => i.set_mode(m),
         }
     }
     fn current_mode(&self) -> usize {
         match self {
-            It::Bare(i) => i.current_mode(),
+            It::Bare(i) => i.as_ref().unwrap().current_mode(),
             It::Pos(i) => i.current_mode(),
         }
     }
     fn position(&self, o: usize) -> (usize, usize) {
         let p = match self {
-            It::Bare(i) => i.position(o),
+            It::Bare(i) => i.as_ref().unwrap().position(o),
             It::Pos(i) => i.position(o),
         };
         (p.line, p.column)
     }
     fn bare(&mut self) -> &mut FindMatches<'h> {
         match self {
-            It::Bare(i) => i,
+            It::Bare(i) => i.as_mut().unwrap(),
             It::Pos(_) => panic!("peek/advance are only driven on the bare iterator"),
         }
     }
@@ -325,6 +339,7 @@ fn apply_plain(it: &mut It, op: Op, input_len: usize) {
             }
         }
         Op::SetOffset(o) => it.set_offset(o),
+        Op::WithOffset(o) => it.with_offset(o),
         Op::SetMode(m) => it.set_mode(m),
     }
 }
@@ -410,6 +425,12 @@ pub fn explore(ctx: &Ctx) -> Explored {
                     ops.push(Op::SetOffset(t.byte_of[ci]));
                 }
                 ops.push(Op::SetOffset(input_len + 1));
+                if !ctx.ops.with_positions && ctx.ops.with_offset_ops {
+                    // the consuming builder form on the live iterator
+                    for ci in 0..=t.n_chars() {
+                        ops.push(Op::WithOffset(t.byte_of[ci]));
+                    }
+                }
             }
         }
         for op in ops {
@@ -456,6 +477,10 @@ pub fn explore(ctx: &Ctx) -> Explored {
                     }
                     Op::SetOffset(o) => {
                         it.set_offset(o);
+                        st.set_offset(t.char_of_byte(o.min(input_len)).unwrap());
+                    }
+                    Op::WithOffset(o) => {
+                        it.with_offset(o);
                         st.set_offset(t.char_of_byte(o.min(input_len)).unwrap());
                     }
                     Op::SetMode(m) => {
